@@ -1,7 +1,8 @@
 PROP = dict(
     id='C19', level='proof',
     pyvc=['contracts.c19'],
-    bounded=None,
+    bounded='bounded.c19',
+    bounded_budget=dict(quick=45, thorough=420),
     assumptions=['A-UUID: uuid.uuid4() returns fresh non-zero 128-bit values (property of the standard library, not provable)',
                  'PY-1 int = mathematical integers; PY-2 declared sorts respected by callers'],
     trusted_base=['z3 5.1 / cvc5 1.0.3', 'pyvc symbolic executor (DESIGN.md §2)', 'CPython attribute lookup order (PY-6)'],
